@@ -99,8 +99,10 @@ TSEnd(tb, n) ==
   ELSE Keep(t, "")
 
 \* ---- what the tag scanner can decide from the tag name alone ---------------------------------
-\* the tag-name hash cannot represent this name (more than 12 characters or a character outside a-z, 1-6)
-Hashable(n) == Len(n) <= 12 /\ \A i \in 1..Len(n) : (n[i] >= 97 /\ n[i] <= 122) \/ (n[i] >= 49 /\ n[i] <= 54)
+\* the 64-bit tag-name hash (5 bits per character) represents names over a-z, 1-6 of up to 12 characters, and of 13
+\* characters when the first one is a-j (its code's top bit is 0, so the shift loses nothing)
+Hashable(n) == /\ \A i \in 1..Len(n) : (n[i] >= 97 /\ n[i] <= 122) \/ (n[i] >= 49 /\ n[i] <= 54)
+               /\ (Len(n) <= 12 \/ (Len(n) = 13 /\ n[1] >= 97 /\ n[1] <= 106))
 \* the simulator cannot answer from the name alone
 NeedsLexeme(sim, n, isEnd) ==
   IF isEnd THEN Cur(sim) = "html" /\ Len(sim.ns) >= 2 /\ sim.ns[Len(sim.ns) - 1] = "mathml" /\ ~Hashable(n)
